@@ -18,14 +18,18 @@ TAINT_STRINGS = {
     "S1": "TAINT_1()",
     "S2": "[TAINT_2(), 2]",
     "S3": "__import__('builtins').TAINT_3()",
+    "S4": "1 if TAINT_4() else 0",     # starts like a number
+    "S5": "-2+TAINT_4()",
 }
 TOKENS = {
     "S1": "`TAINT_1()`", "S2": "`[TAINT_2(), 2]`", "S3": "`__import__('builtins').TAINT_3()`",
+    "S4": "`1 if TAINT_4() else 0`", "S5": "`-2+TAINT_4()`",
     "?": "?", "E": "E", "†": "†", "Ė": "Ė", ":": ":", "w": "w", "ɾ": "3ɾ", "list": "⟨`TAINT_1()`|2⟩", "lam": "λ`TAINT_1()`;",
     ",": ",", "…": "…", "₴": "₴", "¨,": "¨,", "¨…": "¨…", "err": "¼", "3": "3", "W": "W", "_": "_",
 }
-QUICK_TOKENS = ["S1", "S3", "?", "E", "†", "Ė", "w", "ɾ", "list", "lam", ",", "…", "₴", "¨,", "err", "3"]
-INPUTS = {"none": "", "expr": "TAINT_5()", "list": "[TAINT_6(), 1]", "three": "3", "two-lines": "TAINT_5()\n`x`"}
+QUICK_TOKENS = ["S1", "S3", "S4", "?", "E", "†", "Ė", "w", "ɾ", "list", "lam", ",", "…", "₴", "¨,", "err", "3"]
+INPUTS = {"none": "", "expr": "TAINT_5()", "list": "[TAINT_6(), 1]", "three": "3", "two-lines": "TAINT_5()\n`x`",
+          "digit-expr": "2 if TAINT_7() else 0", "signed-expr": "-1+TAINT_7()", "float-expr": "1.5*TAINT_7()"}
 FLAGS = ["", "c", "j", "W"]
 
 _calls = []
@@ -159,16 +163,62 @@ def _shard(args):
     return part.data()
 
 
+def higher_order_programs():
+    """every element documented to take a function, fed a lambda that prints / evaluates tainted text (the element must run the
+    lambda under the caller's context), in both argument orders, with and without forcing a lazy result"""
+    from vmc.core import yamlread
+
+    fun_keys = sorted({e["key"] for e in yamlread.read() if e["kind"] == "element" and any("fun" in sig for sig in e["overloads"])} | {"Ḟ", "Þ↑", "Þ↓"})
+    out = []
+    lam_print, lam_eval = "λ,1;", "λE;"
+    lst, tainted = "3ɾ", "⟨`TAINT_1()`|`1 if TAINT_4() else 0`|`__import__('builtins').TAINT_3()`⟩"
+    for k in fun_keys:
+        for force in ("", "f", "L", "4Ẏ"):
+            out.append(("%s %s %s %s" % (lst, lam_print, k, force), k))
+            out.append(("%s %s %s %s" % (lam_print, lst, k, force), k))
+            out.append(("%s %s %s %s" % (tainted, lam_eval, k, force), k))
+            out.append(("%s %s %s %s" % (lam_eval, tainted, k, force), k))
+    return out
+
+
+def _ho_shard(progs_):
+    part = explore.Partial()
+    for program, key in progs_:
+        for flags in ("", "j"):
+            out, py_out, fd_out, exc, calls, texec = run_online(program, flags, "")
+            part.count()
+            part.nontriv()
+            case = {"program": program, "tokens": [], "inputs": "", "flags": flags, "element": key}
+            tags = {"last": key, "inputs": "none", "flags": flags, "section": "higher-order"}
+            size = 1000 + len(program)
+            if isinstance(exc, sandbox.CaseTimeout):
+                part.skip("higher-order program did not return within the backstop")
+                continue
+            if texec or calls:
+                part.violation("online", case, "user-supplied text was compiled and executed as Python in online mode",
+                               dict(tags, what="tainted exec"), "no exec / call of tainted text", (texec or calls)[:3], size=size)
+            if fd_out or py_out:
+                part.violation("online", case, "online mode wrote to the host's standard output",
+                               dict(tags, what="host stdout"), "", (fd_out or py_out)[:120], size=size)
+            if exc is not None and not isinstance(exc, SystemExit):
+                part.violation("online", case, "an exception escaped execute_vyxal in online mode",
+                               dict(tags, what="escaped " + type(exc).__name__), "errors go to the error record",
+                               "%s: %s" % (type(exc).__name__, str(exc)[:100]), size=size)
+    part.section("higher_order", programs=len(progs_))
+    return part.data()
+
+
 def run(tier, seed):
     rep = Report(PROP, tier, seed, "exploration")
     quick = tier == "quick"
+    explore.pmap(_ho_shard, explore.chunks(higher_order_programs(), 64), rep, seed)
     names = QUICK_TOKENS if quick else list(TOKENS)
     maxlen = 3 if quick else 3
     programs = [tuple(p) for n in range(1, maxlen + 1) for p in itertools.product(names, repeat=n)]
     if not quick:
         core = ["S1", "S3", "?", "E", "†", "Ė", "w", "list", "lam", ",", "err"]
         programs += [tuple(p) for p in itertools.product(core, repeat=4)]
-    inputs_names = ["none", "expr", "list", "three"] if quick else list(INPUTS)
+    inputs_names = ["none", "expr", "list", "digit-expr"] if quick else list(INPUTS)
     flags = ["", "j"] if quick else FLAGS
     explore.pmap(_shard, [(c, inputs_names, flags) for c in explore.chunks(programs, 128)], rep, seed)
     rep.rule = ("all programs of <=%d tokens over %d symbols (3 tainted string literals, ? E † Ė : w range list lambda, every printing "
